@@ -306,7 +306,7 @@ def run(repo, rep):
             continue
         ks = sorted(k for (line, k) in kinds if line == n.lineno)
         if not ks:
-            if repo.is_helper(f):
+            if repo.is_helper(f) and any(h_[1] == f.key for h_ in repo.normalized_helpers):
                 continue        # judged where the helper is inlined
             # a reset of the buffer by the state machine: only where nothing that was received can be pending -- on entering
             # Sta1 (no transport), Sta2 / Sta4 (a new transport, nothing read from it), Sta13 (input is discarded)
